@@ -129,7 +129,7 @@ def recv_side(ctx):
     net.deliver(sim, conn.pipes[0], len(conn.pipes[0].buf))
     if not proto._authenticated:
         raise Violation('C20/harness', 'handshake', 'receiver not authenticated')
-    n = 1 + ds.choose(12)
+    n = 1 + ds.choose(12 * (3 if ctx.tier == 'thorough' else 1))
     msgs = []
     next_fd = 1000
     prev_pos = 0
